@@ -1507,4 +1507,146 @@ Section Safety.
     apply nth_error_firstn_eq with (k := Nat.min ka kb); [lia|].
     apply commit_points_consistent; assumption.
   Qed.
+  (* C04: a commit point is only ever created by a leader commit: an index of the
+     leader's own term in its log, supported by a quorum in which every follower has
+     an acknowledgement >= k recorded for that term and the leader counts itself only
+     when its durable log covers the index *)
+  Theorem commit_point_rule s l s' T k : lrule l s = Some s' ->
+    In (T, k) (cpts s') -> ~ In (T, k) (cpts s) ->
+    exists c, l = LCommitL c k /\
+      p_role (nodes (el s) c) = PL /\ p_up (nodes (el s) c) = true /\ p_term (nodes (el s) c) = T /\
+      (1 <= k <= length (l_log (ln s c)))%nat /\ term_at (l_log (ln s c)) k = T /\
+      exists Q, quorum inc out Q = true /\ forall q, In q Q ->
+        (q = c /\ exists suf, l_dlog (ln s c) = firstn k (l_log (ln s c)) ++ suf) \/
+        (q <> c /\ (k <= acked s q T)%nat).
+  Proof.
+    intros H Hin Hnin. destruct (cpts_step inc out s l s' T k H Hin) as [Hold|(c & -> & ->)]; [contradiction|].
+    exists c. split; [reflexivity|]. apply lcommitl_inv in H. cbv zeta in H.
+    destruct H as (Hl & Hk & Hc & Ht & Hq & _). apply own_term_leader_spec in Hl. destruct Hl as [Hrl Hup].
+    repeat split; try assumption; try lia.
+    exists (supporters inc out s c k). split; [exact Hq|]. intros q Hq0.
+    unfold supporters in Hq0. apply filter_In in Hq0. destruct Hq0 as [_ Hq0].
+    destruct (N.eq_dec q c) as [Eqc|Hne].
+    - subst q. rewrite N.eqb_refl in Hq0. left. split; [reflexivity|]. apply is_prefix_spec. exact Hq0.
+    - right. split; [exact Hne|]. apply N.eqb_neq in Hne. rewrite Hne in Hq0. apply Nat.leb_le. exact Hq0.
+  Qed.
+
+  (* C04: a commit index only rises by a leader commit (which creates the commit point
+     (term, k)) or by a commit up to an existing commit point the log agrees with *)
+  Theorem commit_raise_rule s l s' n : lrule l s = Some s' ->
+    (l_commit (ln s n) < l_commit (ln s' n))%nat ->
+    (exists k, l = LCommitL n k /\ l_commit (ln s' n) = k /\ In (p_term (nodes (el s) n), k) (cpts s')) \/
+    (exists k T k1, l = LCommitF n k /\ l_commit (ln s' n) = k /\ In (T, k1) (cpts s) /\ (k <= k1)%nat /\
+                    firstn k (l_log (ln s n)) = firstn k (llog s T)).
+  Proof.
+    intros H Hlt. destruct (commit_changes inc out s l s' n H) as [Ec|[->|[(k0 & -> & Ek)|(k0 & -> & Ek)]]].
+    - lia.
+    - destruct (crash_falls_back inc out s n s' H) as (E0 & _). lia.
+    - left. exists k0. split; [reflexivity|]. split; [exact Ek|].
+      apply lcommitl_inv in H. cbv zeta in H. destruct H as (_ & _ & _ & _ & _ & ->). left. reflexivity.
+    - right. apply lcommitf_inv in H. destruct H as (_ & Hk & _ & (T & k1 & Hin & Hk1 & suf & Hsuf) & _).
+      exists k0, T, k1. repeat split; try assumption.
+      rewrite Hsuf. rewrite firstn_app_le by (rewrite firstn_length; lia).
+      rewrite firstn_firstn_le by lia. reflexivity.
+  Qed.
+
+  (* C04: an acknowledgement is only recorded while the durable log of the node covers it *)
+  Theorem ack_record_rule s l s' q t : lreachable s -> lrule l s = Some s' ->
+    (acked s q t < acked s' q t)%nat ->
+    (acked s' q t <= length (llog s t))%nat /\
+    (exists suf, l_dlog (ln s q) = firstn (acked s' q t) (llog s t) ++ suf) /\
+    (l = LRelAck q t (acked s' q t) \/
+     (l = LCommitL q (acked s' q t) /\ t = p_term (nodes (el s) q) /\ p_role (nodes (el s) q) = PL)).
+  Proof.
+    intros Hr H Hlt. destruct l as [l0|c x|n m|q0 i|q0 t0 i|c k0|n k0|n|n].
+    - destruct (lel_inv _ _ _ _ _ H) as (e' & He & Hel & Hs). exfalso.
+      destruct l0 as [n|n|n|n t0|n c t0|n t0|n t0|c n|c|n t0|n|n|n]; try (subst s'; cbn in Hlt; lia);
+        [destruct Hs as [-> _]|destruct Hs as [_ ->]]; cbn in Hlt; lia.
+    - apply lpropose_inv in H. destruct H as (_ & ->). cbn in Hlt. lia.
+    - apply ladopt_inv in H. cbv zeta in H. destruct H as (_ & _ & _ & _ & _ & _ & ->). cbn in Hlt. lia.
+    - apply lmkack_inv in H. cbv zeta in H. destruct H as (_ & _ & _ & _ & ->). cbn in Hlt. lia.
+    - apply lrelack_inv in H. destruct H as (_ & Hcov & Hi & ->).
+      destruct (acked s q0 t0 <? i)%nat; [|lia]. cbn in Hlt |- *.
+      destruct ((q =? q0) && (t =? t0)) eqn:E; [|lia].
+      apply andb_prop in E. destruct E as [E1 E2]. apply N.eqb_eq in E1, E2. subst. auto.
+    - apply lcommitl_inv in H. cbv zeta in H. destruct H as (Hl & Hk & _ & _ & _ & ->).
+      destruct (is_prefix (firstn k0 (l_log (ln s c))) (l_dlog (ln s c)) && (acked s c (p_term (nodes (el s) c)) <? k0)%nat) eqn:Eb;
+        [|cbn in Hlt; lia].
+      apply andb_prop in Eb. destruct Eb as [Eb _]. apply is_prefix_spec in Eb. cbn in Hlt |- *.
+      destruct ((q =? c) && (t =? p_term (nodes (el s) c))) eqn:E; [|lia].
+      apply andb_prop in E. destruct E as [E1 E2]. apply N.eqb_eq in E1, E2. subst.
+      rewrite (li_B s (lreachable_LInv inc out inc_nonempty Hmulti s Hr) c Hl) in Hk, Eb.
+      apply own_term_leader_spec in Hl. destruct Hl as [Hrl _]. auto 10.
+    - apply lcommitf_inv in H. destruct H as (_ & _ & _ & _ & ->). cbn in Hlt. lia.
+    - apply llogimage_inv in H. destruct H as (_ & ->). cbn in Hlt. lia.
+    - apply llogfsync_inv in H. destruct H as (img & rest & _ & _ & _ & ->). cbn in Hlt. lia.
+  Qed.
 End Safety.
+
+(* ------------------------------------------------------------------ *)
+(** * Why the durable log must never be ahead of the durable term
+
+   With the fsync rule of the log layer WITHOUT the guard "every entry of the image
+   has a term <= the durable term" (the rule as first written), state-machine safety
+   is false: node 2 learns term 2 (volatile only), replicates and persists the log of
+   the leader of term 2, acknowledges, the leader commits index 2 with that
+   acknowledgement; node 2 crashes, restarts at its durable term 1, adopts the stale
+   log of the leader of term 1, is elected in term 3 with that log and commits a
+   different entry at index 2. *)
+
+Definition lrule_unguarded_fsync (inc out : list N) (l : llabel) (s : lst) : option lst :=
+  match l with
+  | LLogFsync n =>
+      let x := ln s n in
+      match l_imgs x with
+      | img :: rest =>
+          if p_up (nodes (el s) n)
+          then Some (set_ln s n (mkLN (l_log x) img rest (l_commit x) (l_acks x)))
+          else None
+      | [] => None
+      end
+  | _ => lrule inc out l s
+  end.
+
+Fixpoint lrun_unguarded_fsync (inc out : list N) (ls : list llabel) (s : lst) : option lst :=
+  match ls with
+  | [] => Some s
+  | l :: rest => match lrule_unguarded_fsync inc out l s with
+                 | Some s' => lrun_unguarded_fsync inc out rest s' | None => None end
+  end.
+
+Definition stale_term_attack : list llabel :=
+  [ (* 3 leads term 1 with 2's vote, proposes an entry it never persists, crashes *)
+    LEl (LCampaign 3); LEl (LImage 3); LEl (LFsync 3); LEl (LReleaseReq 3 1);
+    LEl (LGrant 2 3 1); LEl (LImage 2); LEl (LFsync 2); LEl (LReleaseGrant 2 1);
+    LEl (LRecvGrant 3 2); LEl (LBecomeLeader 3); LLogImage 3; LLogFsync 3;
+    LPropose 3 9; LEl (LCrash 3); LEl (LRestart 3);
+    (* 1 catches up with [(1,0)] at term 1, then leads term 2 with 3's vote *)
+    LEl (LCampaign 1); LAdopt 1 1; LEl (LCampaign 1); LEl (LImage 1); LEl (LFsync 1); LEl (LReleaseReq 1 2);
+    LEl (LGrant 3 1 2); LEl (LImage 3); LEl (LFsync 3); LEl (LReleaseGrant 3 2);
+    LEl (LRecvGrant 1 3); LEl (LBecomeLeader 1); LLogImage 1; LLogFsync 1;
+    (* 2 learns term 2 (volatile only), replicates, persists the log, acknowledges; 1 commits *)
+    LEl (LUpdateTerm 2 2); LAdopt 2 2; LMkAck 2 2%nat; LLogImage 2; LLogFsync 2; LRelAck 2 2 2%nat;
+    LCommitL 1 2%nat;
+    (* 2 crashes: back to durable term 1, adopts the stale term-1 leader log *)
+    LEl (LCrash 2); LEl (LRestart 2); LAdopt 2 2;
+    (* 2 leads term 3 with 3's vote and commits index 3 *)
+    LEl (LCampaign 2); LEl (LCampaign 2); LEl (LImage 2); LEl (LFsync 2); LEl (LReleaseReq 2 3);
+    LEl (LGrant 3 2 3); LEl (LImage 3); LEl (LFsync 3); LEl (LReleaseGrant 3 3);
+    LEl (LRecvGrant 2 3); LEl (LBecomeLeader 2); LLogImage 2; LLogFsync 2;
+    LAdopt 3 3; LMkAck 3 3%nat; LLogImage 3; LLogFsync 3; LRelAck 3 3 3%nat; LCommitL 2 3%nat ].
+
+Lemma unguarded_fsync_unsafe :
+  exists s, lrun_unguarded_fsync [1;2;3] [] stale_term_attack linit = Some s /\
+    l_commit (ln s 1) = 2%nat /\ l_commit (ln s 2) = 3%nat /\
+    nth_error (l_log (ln s 1)) 1 = Some (2, 0) /\ nth_error (l_log (ln s 2)) 1 = Some (1, 9).
+Proof. eexists. split; [vm_compute; reflexivity|]. vm_compute. repeat split. Qed.
+
+(* the guarded rule rejects that execution (at node 2's fsync of a term-2 log under durable term 1) *)
+Lemma guarded_fsync_rejects_attack : lrun [1;2;3] [] stale_term_attack linit = None.
+Proof. vm_compute. reflexivity. Qed.
+
+(* the election restriction of P, by construction of the grant rule *)
+Lemma grant_restricted inc out n c t s s' : lrule inc out (LEl (LGrant n c t)) s = Some s' ->
+  up_to_date (clog s c t) (l_log (ln s n)) = true.
+Proof. intros H. destruct (lel_inv inc out _ _ _ H) as (e & _ & _ & _ & Hu). exact Hu. Qed.
